@@ -59,6 +59,17 @@ mod helpers {
     use std::fmt;
     use yaserde::{YaDeserialize, YaSerialize};
 
+    /// The "response" of an operation without an output message: whatever the server answers is accepted
+    /// and ignored.
+    #[derive(Debug, Default)]
+    pub(super) struct NoResponse;
+
+    impl YaDeserialize for NoResponse {
+        fn deserialize<R: std::io::Read>(_reader: &mut yaserde::de::Deserializer<R>) -> Result<Self, String> {
+            Ok(NoResponse)
+        }
+    }
+
     pub(super) async fn send_soap_request<YI, YO, U, P>(
         url: &str,
         credentials: Option<(U, P)>,
